@@ -176,3 +176,15 @@ package query
 //@ func query.RawConfigFromProto
 //@   trusted
 //@   assigns nothing
+
+// The parser calls mapQueryList and Simplify on trees it is still building (its
+// callback sets the case flavour of atoms in place), outside the "rewrites
+// never write existing nodes" discipline of the C05 contracts: for the parser's
+// crash-freedom proofs these two calls are opaque (no contract: all memory is
+// havocked, the result is unconstrained), as they were before C05.
+//@ func query.mapQueryList
+//@   trusted
+//@   flag only_for=query.parse
+//@ func query.Simplify
+//@   trusted
+//@   flag only_for=query.Parse
